@@ -27,7 +27,7 @@ LEVEL_NOTE = ("Tolerance 1e-6 relative to the largest contributing node (float32
               "monitor is not bit-for-bit). Cell-edge ties (X or Y = k + 1/2) admit either neighbouring cell as 'own cell'.")
 RULE = ("case = one world x 3 subgrids x 2000 positions (kinds: random nodes, per-level linear, linear in x,y,z over a flat bottom). Non-trivial: land faces contribute, positions "
         "on edges/rim and depths outside the level range are present; distinct by world parameters.")
-MANDATORY = ["positions_compared", "land_face_contributes", "depth_above_top_level", "depth_below_bottom_level", "depth_on_level", "edge_tie_positions", "rim_positions",
+MANDATORY = ["subgrid_with_negative_limits", "positions_compared", "land_face_contributes", "depth_above_top_level", "depth_below_bottom_level", "depth_on_level", "edge_tie_positions", "rim_positions",
              "packed_storage", "packed_with_different_scale_factors", "subgrid_pairs_compared", "scalar_values_compared", "linear_levels_exact", "linear3d_exact", "convexity_checked", "vtransform2", "e2e_displacements_checked", "e2e_scalar_values_checked", "consecutive_update_values_compared", "second_file_with_other_packing", "later_frame_nonzero_on_land_faces_first_frame_zero", "grid_file_with_mask_u_and_mask_v"]
 ASSUMPTIONS = ["add_offset of packed u/v is zero (the code documents that it ignores it)", "positions inside the valid region of every subgrid used"]
 TIMEOUT = {"quick": 900, "thorough": 3400}
@@ -273,6 +273,10 @@ def run_case(case: dict[str, Any], wd: Path) -> dict[str, Any]:
     tieX = np.abs(X - np.floor(X) - 0.5) < 1e-12
     tieY = np.abs(Y - np.floor(Y) - 0.5) < 1e-12
 
+    if len(subs) > 1:
+        # the same rectangle once more, its upper limits counted from the far edge (negative limits, as documented)
+        s1 = subs[1]
+        subs.append([s1[0], s1[1] - imax, s1[2], s1[3] - jmax])
     V: list = []
     sit: dict[str, int] = {}
     cnt: dict[str, int] = {}
@@ -304,7 +308,7 @@ def run_case(case: dict[str, Any], wd: Path) -> dict[str, Any]:
                 inv = np.argsort(perm)
                 second = (np.array(U2, float)[inv], np.array(V2, float)[inv], {k: np.array(forcing.variables[k], float)[inv] for k in ("temp", "salt")})
             forcing.close()
-        except Exception as e:  # noqa: BLE001
+        except (Exception, SystemExit) as e:  # noqa: BLE001
             import traceback  # noqa: PLC0415
 
             V.append(C.viol(f"Grid/Forcing evaluation failed for positions inside the valid region (subgrid {sub}): {type(e).__name__}: {e}",
@@ -440,6 +444,8 @@ def run_case(case: dict[str, Any], wd: Path) -> dict[str, Any]:
     # --- subgrid pair monitor
     for sub, (U1, V1, sc1, _a, _b) in zip(subs[1:], results[1:]):
         nt = ~(tieX | tieY)
+        if min(sub) < 0:
+            _bump(sit, "subgrid_with_negative_limits")
         _bump(sit, "subgrid_pairs_compared", int(nt.sum()))
         du = np.max(np.abs(U1[nt] - U0[nt]))
         dv = np.max(np.abs(V1[nt] - V0[nt]))
